@@ -8,15 +8,6 @@ type builtinFact struct {
 	Handler string   `json:"handler"`
 }
 
-type generatedOutput struct {
-	Site     string   `json:"site"`
-	Stage    string   `json:"stage"`
-	Output   string   `json:"output"`
-	Kind     string   `json:"kind"` // map | struct:<Type> | other
-	Keys     []string `json:"keys"`
-	Declared []string `json:"declared"`
-}
-
 type assertFact struct {
 	File    string `json:"file"`
 	Func    string `json:"func"`
@@ -25,15 +16,3 @@ type assertFact struct {
 	CommaOk bool   `json:"comma_ok"`
 }
 
-type accessFact struct {
-	File   string `json:"file"`
-	Func   string `json:"func"`
-	Recv   string `json:"recv"`
-	Field  string `json:"field"`
-	Write  bool   `json:"write"`
-	Locked bool   `json:"locked"`
-	Line   int    `json:"line"`
-}
-
-func extractGenerated(repo string, files map[string]string) {}
-func extractAccess(repo string, files map[string]string)    {}
